@@ -2758,7 +2758,7 @@ func (d *decoderBincBytes) structFieldNotFound(index int, rvkencname string) {
 	if d.h.ErrorIfNoField {
 		if index >= 0 {
 			halt.errorInt("no matching struct field found when decoding stream array at index ", int64(index))
-		} else if rvkencname != "" {
+		} else {
 			halt.errorStr2("no matching struct field found when decoding stream map with key ", rvkencname)
 		}
 	}
@@ -6856,7 +6856,7 @@ func (d *decoderBincIO) structFieldNotFound(index int, rvkencname string) {
 	if d.h.ErrorIfNoField {
 		if index >= 0 {
 			halt.errorInt("no matching struct field found when decoding stream array at index ", int64(index))
-		} else if rvkencname != "" {
+		} else {
 			halt.errorStr2("no matching struct field found when decoding stream map with key ", rvkencname)
 		}
 	}
